@@ -81,18 +81,25 @@ fn nesting_probe(kind: usize, depth: usize) -> String {
         8 => format!("DEFCIRCUIT C:{}", "\n    NOP".repeat(depth)),
         9 => format!("ro{}", "[0]".repeat(depth)),
         10 => format!("X{}", " 0".repeat(depth)),
-        _ => format!("\"{}\"", "\\\"".repeat(depth)),
+        11 => format!("\"{}\"", "\\\"".repeat(depth)),
+        // definitions with blocks nested inside one another (one indent per level is all the block
+        // grammar asks for)
+        12 => format!("{}NOP", "DEFCIRCUIT A:\n\t".repeat(depth)),
+        13 => format!("{}NOP", "DEFCAL X 0:\n    ".repeat(depth)),
+        14 => format!("{}NOP", "DEFCAL MEASURE 0 addr:\n\t".repeat(depth)),
+        _ => format!("{}NOP", "DEFCIRCUIT A(%t) q:\n\tDEFCAL RX(%t) q:\n\t".repeat(depth / 2)),
     }
 }
 
 const SUB: usize = 48;
+const NPROBES: usize = 16;
 
 impl Property for C01Prop {
     fn id(&self) -> &'static str {
         "C01"
     }
     fn rule(&self) -> &'static str {
-        "exhaustive: every sequence of <= 2 tokens over a 107-token alphabet (one representative of each command keyword, modifier, data type and keyword token, identifiers, i, pi, sin, small / 2^63 / 2^64-1 / 2^64 integers, hex, a bare 0b, floats incl. 1e400, strings, %variable, @target, each operator and punctuation mark, newline, indent, tab, comment) joined by single spaces, plus every sequence of 3 tokens over the first 48 (quick) / over all 107 (thorough); 12 nesting probes ('(' x d, 'sin(' x d, '-(' x d, '-' x d, '^2' x d, '+1' x d, 'DAGGER ' x d, long blocks, '[0]' x d, long qubit lists, escaped-quote runs) at depths {8, 64, 512, 4096} (quick) and up to 100000 (thorough); random: spelling-template programs, printed API-built programs and corpus programs with 1..3 token / byte mutations. Non-trivial = the string has >= 2 whitespace-separated tokens; distinct by string hash."
+        "exhaustive: every sequence of <= 2 tokens over a 107-token alphabet (one representative of each command keyword, modifier, data type and keyword token, identifiers, i, pi, sin, small / 2^63 / 2^64-1 / 2^64 integers, hex, a bare 0b, floats incl. 1e400, strings, %variable, @target, each operator and punctuation mark, newline, indent, tab, comment) joined by single spaces, plus every sequence of 3 tokens over the first 48 (quick) / over all 107 (thorough); 16 nesting probes ('(' x d, 'sin(' x d, '-(' x d, '-' x d, '^2' x d, '+1' x d, 'DAGGER ' x d, long blocks, '[0]' x d, long qubit lists, escaped-quote runs, DEFCIRCUIT / DEFCAL / DEFCAL MEASURE blocks nested d deep and an alternation of the two) at depths {8, 64, 512, 4096} (quick) and up to 100000 (thorough); random: spelling-template programs, printed API-built programs and corpus programs with 1..3 token / byte mutations. Non-trivial = the string has >= 2 whitespace-separated tokens; distinct by string hash."
     }
     fn guided(&self) -> bool {
         false
@@ -113,7 +120,7 @@ impl Property for C01Prop {
                     (0..n).map(|_| alphabet[src.below(alphabet.len())]).collect::<Vec<_>>().join(" ")
                 }
                 _ => {
-                    let kind = src.below(12);
+                    let kind = src.below(NPROBES);
                     let depth = src.below(100_001);
                     out.class("nesting-probe");
                     nesting_probe(kind, depth)
@@ -199,7 +206,7 @@ impl Property for C01Prop {
             Tier::Quick => &[8, 64, 512, 4096],
             Tier::Thorough => &[8, 64, 512, 4096, 20_000, 100_000],
         };
-        for kind in 0..12 {
+        for kind in 0..NPROBES as u32 {
             for d in depths {
                 if !emit(vec![1, kind, *d], &mut counter) {
                     return;
@@ -210,7 +217,7 @@ impl Property for C01Prop {
     fn exhaustive_part(&self, tier: Tier) -> Option<String> {
         let n = text::token_alphabet().len() as u64;
         let m = tier.pick(SUB as u64, n);
-        Some(format!("all {} token sequences of length <= 2 over {n} tokens, all {} of length 3 over {m} tokens, and 12 nesting probes at {} depths", 1 + n + n * n, m * m * m, tier.pick(4, 6)))
+        Some(format!("all {} token sequences of length <= 2 over {n} tokens, all {} of length 3 over {m} tokens, and 16 nesting probes at {} depths", 1 + n + n * n, m * m * m, tier.pick(4, 6)))
     }
     fn floors(&self) -> Vec<(&'static str, f64)> {
         vec![("program-parses", 0.05)]
